@@ -372,7 +372,11 @@ func (r *Raw) BackendNF(name string) *BackendNF {
 			for _, e := range r.Files[mc[2]] {
 				fs := strings.Fields(e)
 				if len(fs) >= 2 {
-					st.Entries = append(st.Entries, Entry{K: Chars(fs[0]), V: fs[1], W: []string{}, P: []string{}})
+					en := Entry{K: Chars(fs[0]), V: fs[1], W: []string{}, P: []string{}}
+					if st.Method == "reg" {
+						wildEntry(&en, fs[0])
+					}
+					st.Entries = append(st.Entries, en)
 				}
 			}
 			if g := reNotFound.FindStringSubmatch(m[3]); g != nil {
